@@ -1,7 +1,9 @@
 """C20 — model validation is sound and complete for references.
 
-(1) translator: `generate(ck)` regenerates lean/GlotaranModel/Generated/C20.lean (the `Schema` table)
-    from the live item classes with an own walker over attrs fields / typing annotations;
+(1) translators: `generate(ck)` regenerates lean/GlotaranModel/Generated/C20.lean (the `Schema` table) from the live item
+    classes with an own walker over attrs fields / typing annotations, Generated/C20Validators.lean (what every function
+    attached with `attribute(validator=…)` checks, translated from its AST by harness/props/_c20_validators.py) and
+    Generated/C20Walker.lean (the positions the live walkers visit on probe instances of every class);
 (2) correspondence: abstract model (Lean) vs `Model.get_issues` / `fill_item` /
     `get_parameter_labels` on the real code;
 (3) oracle: the statement of C20 evaluated on the real code, independent of the Lean model.
@@ -19,43 +21,64 @@ from pathlib import Path
 
 from harness import core
 from harness.core import enc, strs
+from harness.props import _c20_validators
 
 PROP = "C20"
 REQUIRED_THEOREMS = [
     "never_internal_error", "complete", "complete_items", "complete_parameters", "sound",
     "exclusive_unique_reported", "valid_fills", "valid_fills_ranked", "generated_parameters_suffice",
     "generated_schema_closed", "generated_schema_ranked", "complete_generated",
+    "validators_reported", "issues_justified", "generated_validators_eq_model", "generated_validators_safe",
+    "generated_validators_cover", "sound_generated", "defined_in_reported",
+    "walker_positions_generated", "walk_positions_checked",
 ]
 TRUSTED = [
     "hand-written model lean/GlotaranModel/C20.lean of glotaran/model/item.py (iterate_names_and_labels, "
-    "get_item_*_issues, fill_item), dataset_model.py (get_megacomplex_issues) and model.py (get_issues, "
-    "get_parameter_labels, generate_parameters), tied to the code by differential execution",
+    "get_item_*_issues, fill_item), dataset_model.py and model.py (get_issues, get_parameter_labels, generate_parameters), "
+    "tied to the code by differential execution; its interpreter `interpPred` of the validator predicate language",
     "the translator harness/props/c20.py:walk_schema (own walker over attrs fields and typing annotations) that "
     "regenerates the Schema table; cross-checked on every run against glotaran's model_attributes / "
     "parameter_attributes / iterate_names_and_labels",
-    "custom validators other than the megacomplex and length validators are abstract (none exists in the builtin classes)",
+    "the translator harness/props/_c20_validators.py (AST of every function attached with attribute(validator=...), calls "
+    "returned directly are inlined) that regenerates the validator table Generated/C20Validators.lean; cross-checked by the "
+    "correspondence (the interpreted table against the real validators on cases that violate each predicate in every way "
+    "it allows) and by theorem generated_validators_eq_model against the hand-written table",
+    "the probe runner harness/props/c20.py:walk_live that runs the live walkers (iterate_model_item_names_and_labels, "
+    "iterate_parameter_names_and_labels, fill_item_attributes) on probe instances of every item class and regenerates "
+    "Generated/C20Walker.lean (theorem walker_positions_generated: the model walker visits the same positions)",
+    "validators the translator cannot express stay abstract (`opaque`, counted in generated_tables; none for the builtin "
+    "classes: theorem generated_validators_safe); validation hooks other than attribute validators (attrs validators, init "
+    "hooks, get_issues-style methods) are searched for on every class and listed (none found)",
 ]
 ASSUMPTIONS = [
     "attribute values have the shape their annotation declares (a scalar label, a list of labels, a dict of labels); "
     "other shapes are a modelled `shape` error and are excluded by hypothesis `WellShaped`",
     "the empty string at a scalar reference position counts as unset (`if not value: continue`), as None does",
     "references are labels (str); Parameter / item objects inside a specification (already filled items) are outside the language",
-    "every collection the schema refers to is an attribute of the model class (theorem generated_schema_closed for the builtin "
-    "classes; `Closed` hypothesis in general)",
+    "every collection the schema or a validator refers to is an attribute of the model class (theorem generated_schema_closed "
+    "for the builtin classes; `Closed` hypothesis in general)",
+    "validators that resolve labels guard against None and skip undefined labels (`tableSafe`; theorem generated_validators_safe "
+    "for the builtin classes; false for the code before fix D11, witness kept as an example)",
     "item references are acyclic (theorem generated_schema_ranked for the builtin classes; rank hypothesis of valid_fills in general)",
-    "DatasetModel.group and Weight.datasets are plain strings for the type system and for validation; they are not reference "
-    "positions of the schema (observed and reported in the evidence, not part of the theorems)",
+    "reading of the property: a label is a reference when it names something DEFINED in the model or the parameter set: model items "
+    "(typed positions, and the plain-string positions DatasetModel.group -> dataset_groups, Weight.datasets -> dataset, "
+    "validated since the fix) and parameters.  Clp labels (constraint / relation / penalty target and source, clp-guide "
+    "target) name columns megacomplexes produce at evaluation, scheme.data keys are data, clp_link_* are options: not covered, "
+    "observed and recorded in the evidence (scheme_level_positions_observed), never judged",
 ]
 RULE = (
     "scenario models built from dict specs covering every builtin megacomplex / irf / shape / constraint / penalty class "
     "(decay with k_matrix lists and tuple keys, decay-sequential, decay-parallel, damped-oscillation, pfid, spectral with "
     "shapes as global megacomplex, baseline, coherent-artifact, clp-guide, all irf types, initial_concentration, clp items, "
-    "weights, dataset groups, scales); for each scenario, exhaustively over every reference position the regenerated Schema "
-    "lists: the label misspelled, the referenced definition removed, every parameter removed from the parameter set, every "
-    "megacomplex appended to every dataset's megacomplex / global_megacomplex list (duplicates of unique, combinations with "
-    "exclusive), list lengths of oscillation parameters changed, scalar set to '' / None, plus seeded random combinations of "
-    "2-4 of these; compared: multiset of (issue kind, name, label) with and without parameters, parameter label set, "
-    "fill result tree / error class; a case is non-trivial when it contains at least one reference; distinct = distinct "
+    "weights over one and two datasets, dataset groups, scales); for each scenario, exhaustively over every reference "
+    "position the regenerated Schema lists and every plain-string label position (group, weight datasets): the label "
+    "misspelled (suffix, proper prefix, parameter group path / child, a label defined in ANOTHER collection), the referenced "
+    "definition removed (every collection incl. datasets and dataset groups), every parameter removed, every megacomplex "
+    "appended to every dataset's megacomplex / global_megacomplex list (unique ones also twice; combinations with exclusive), "
+    "every list measured by a length validator shortened / lengthened / pairs and all shortened alike, scalar set to '' / None, "
+    "plus seeded random combinations of 2-4 of these and PAIRS of dangling references in different items (thorough: all pairs; "
+    "quick: 30 per scenario); compared: multiset of (issue kind, name, label) with and without parameters, parameter label "
+    "set, fill result tree / error class; a case is non-trivial when it contains at least one reference; distinct = distinct "
     "(scenario, mutation list)"
 )
 
@@ -66,14 +89,8 @@ GEN_FILE = core.LEAN / "GlotaranModel" / "Generated" / "C20.lean"
 # ------------------------------------------------------------------------------------------
 ALIAS = "__glotaran_alias__"
 VALIDATOR = "__glotaran_validator__"
-KNOWN_VALIDATORS = {
-    "glotaran.model.dataset_model.validate_megacomplexes": ("megacomplexes",),
-    "glotaran.model.dataset_model.validate_global_megacomplexes": ("megacomplexes",),
-    "glotaran.builtin.megacomplexes.damped_oscillation.damped_oscillation_megacomplex.validate_oscillation_parameter":
-        ("samelength", ["labels", "frequencies", "rates"]),
-    "glotaran.builtin.megacomplexes.pfid.pfid_megacomplex.validate_pfid_parameter":
-        ("samelength", ["labels", "frequencies", "rates"]),
-}
+GEN_VALIDATORS = core.LEAN / "GlotaranModel" / "Generated" / "C20Validators.lean"
+GEN_WALKER = core.LEAN / "GlotaranModel" / "Generated" / "C20Walker.lean"
 
 
 def _glotaran():
@@ -208,8 +225,7 @@ def class_spec(key, coll, cls):
         if v is None:
             validator = ("none",)
         else:
-            qn = f"{v.__module__}.{v.__qualname__}"
-            validator = KNOWN_VALIDATORS.get(qn, ("custom", qn))
+            validator = ("named", _c20_validators.qualname(v), v)
         attrs_out.append({
             "name": f.name, "struct": struct, "optional": optional, "kind": kind,
             "coll": f.metadata.get(ALIAS, f.name) if kind == "item" else None,
@@ -317,11 +333,7 @@ def render_lean(schema) -> str:
     def validator(v):
         if v[0] == "none":
             return ".none"
-        if v[0] == "megacomplexes":
-            return ".megacomplexes"
-        if v[0] == "samelength":
-            return "(.sameLength [" + ", ".join(_lstr(x) for x in v[1]) + "])"
-        return f"(.custom {_lstr(v[1])})"
+        return f"(.named {_lstr(v[1])})"
 
     out = [
         "/-",
@@ -361,6 +373,255 @@ def render_lean(schema) -> str:
     return "\n".join(out)
 
 
+# ------------------------------------------------------------------------------------------
+# (1b) translator of the validator functions (harness/props/_c20_validators.py does the AST work)
+# ------------------------------------------------------------------------------------------
+_VALIDATORS_CACHE = {}
+
+
+def walk_validators(schema=None):
+    """every validator hook of every item class of the schema:
+       uses = [(class key, attribute, qualified function name)], preds = {name: predicate tuple},
+       hooks = other validation hooks found on the classes (attrs validators, init hooks, get_issues-style methods)"""
+    if "v" in _VALIDATORS_CACHE:
+        return _VALIDATORS_CACHE["v"]
+    schema = schema or walk_schema()
+    uses, preds, funcs, hooks = [], {}, {}, []
+    for sp in schema["specs"]:
+        for a in sp["attrs"]:
+            v = a["validator"]
+            if v[0] == "named":
+                uses.append((sp["key"], a["name"], v[1]))
+                funcs.setdefault(v[1], v[2])
+        classes = [sp["cls"]] if sp["cls"] is not None else [schema["bases"]["dataset"]] + sp["dataset_types"]
+        for c in classes:
+            try:
+                for kind, name in _c20_validators.class_hooks(c):
+                    hooks.append((sp["key"], f"{c.__module__}.{c.__qualname__}", kind, name))
+            except Exception as e:  # noqa: BLE001 — a class the hook scan cannot read is itself recorded
+                hooks.append((sp["key"], f"{c.__module__}.{c.__qualname__}", "scan-failed", type(e).__name__))
+    for name in sorted(funcs):
+        try:
+            preds[name] = _c20_validators.translate(funcs[name])
+        except Exception as e:  # noqa: BLE001 — never crash the check, never a silent default
+            preds[name] = ("untranslatable", f"{name}: translator raised {type(e).__name__}")
+    # a hook that is not a glotaran attribute validator cannot be expressed: opaque, by name (counted)
+    for key, cls, kind, name in hooks:
+        preds.setdefault(f"{cls}.{name}", ("opaque", f"{cls}.{name}"))
+    r = {"uses": sorted(uses), "preds": preds, "hooks": sorted(set(hooks)), "funcs": funcs}
+    _VALIDATORS_CACHE["v"] = r
+    return r
+
+
+def _pred_lean(p):
+    b = lambda x: "true" if x else "false"  # noqa: E731
+    if p[0] == "resolved":
+        rules = ", ".join(f"⟨.{f}, .{'sameClass' if c == 'sameclass' else c}, {n}, .{i}⟩" for f, c, n, i in p[4])
+        return f".resolved {_lstr(p[1])} {b(p[2])} {b(p[3])} [{rules}]"
+    if p[0] == "lengthsequal":
+        return ".lengthsEqual [" + ", ".join(_lstr(x) for x in p[1]) + "]"
+    if p[0] == "definedin":
+        return f".definedIn {_lstr(p[1])} {_lstr(p[2])}"
+    if p[0] == "opaque":
+        return f".opaque {_lstr(p[1])}"
+    return f".untranslatable {_lstr(_ascii(p[1]))}"
+
+
+def _ascii(s):
+    return "".join(c if 32 <= ord(c) < 127 and c not in '"\\' else "?" for c in s)
+
+
+def _pred_protocol(p):
+    if p[0] == "resolved":
+        rules = core.lst(f"[{f},{c},{n},{i}]" for f, c, n, i in p[4])
+        return f"[resolved,{enc(p[1])},{core.bool_(p[2])},{core.bool_(p[3])},{rules}]"
+    if p[0] == "lengthsequal":
+        return f"[lengthsequal,{strs(p[1])}]"
+    if p[0] == "definedin":
+        return f"[definedin,{enc(p[1])},{enc(p[2])}]"
+    if p[0] == "opaque":
+        return f"[opaque,{enc(p[1])}]"
+    return f"[untranslatable,{enc(_ascii(p[1]))}]"
+
+
+def validators_protocol_dump(vs) -> str:
+    return core.lst(f"[{enc(n)},{_pred_protocol(vs['preds'][n])}]" for n in sorted(vs["preds"]))
+
+
+def render_validators_lean(vs) -> str:
+    out = [
+        "/-",
+        "GENERATED by harness/props/c20.py (generate) from the source of the live validator functions of VERIF_REPO — do not edit.",
+        "Validator table of C20: which function `attribute(validator=…)` attaches to which attribute of which item class, and",
+        "what each function checks, translated from its AST into the predicate language `VPred` of GlotaranModel/C20.lean.",
+        "-/",
+        "import GlotaranModel.C20",
+        "namespace Glotaran.C20.Generated",
+        "",
+        "/-- (item class, attribute, validator function) -/",
+        "def validatorUses : List (String × String × String) := [",
+        ",\n".join(f"  ({_lstr(k)}, {_lstr(a)}, {_lstr(n)})" for k, a, n in vs["uses"]),
+        "]",
+        "",
+        "/-- validation hooks of the item classes that are not glotaran attribute validators",
+        "    (class, kind, name) -/",
+        "def otherHooks : List (String × String × String) := [",
+        ",\n".join(f"  ({_lstr(c)}, {_lstr(k)}, {_lstr(n)})" for _, c, k, n in vs["hooks"]),
+        "]",
+        "",
+        "def validators : VTable := [",
+        ",\n".join(f"  ({_lstr(n)},\n    {_pred_lean(vs['preds'][n])})" for n in sorted(vs["preds"])),
+        "]",
+        "",
+        "end Glotaran.C20.Generated",
+        "",
+    ]
+    return "\n".join(out)
+
+
+def _write_if_changed(path, text):
+    path.parent.mkdir(parents=True, exist_ok=True)
+    if not path.exists() or path.read_text() != text:
+        path.write_text(text)
+
+
+def _sha_files(files):
+    h = hashlib.sha1()
+    for f in files:
+        if f != "?" and Path(f).exists():
+            h.update(Path(f).read_bytes())
+    return h.hexdigest()
+
+
+def _rel(files):
+    return [str(Path(f).resolve().relative_to(core.REPO)) if str(f).startswith(str(core.REPO)) else str(f) for f in files]
+
+
+# ------------------------------------------------------------------------------------------
+# (1c) the traversal: what the LIVE walkers visit on probe instances of every item class
+# ------------------------------------------------------------------------------------------
+_WALKER_CACHE = {}
+
+
+def _probe_value(a, kind):
+    if kind == "none":
+        return None
+    if kind == "empty":
+        return {"scalar": "", "list": [], "dict": {}}[a["struct"]]
+    n = a["name"]
+    return {"scalar": f"P:{n}", "list": [f"P:{n}:0", f"P:{n}:1"], "dict": {"k0": f"P:{n}:k0", "k1": f"P:{n}:k1"}}[a["struct"]]
+
+
+def _spec_class(schema, sp):
+    """the class the live walkers are run on: the class itself; for datasets the dataset class of the model class built
+       from all builtin megacomplexes (the union the schema describes)"""
+    if sp["cls"] is not None:
+        return sp["cls"]
+    import attrs
+    M = schema["model_class"]
+    if M is None:
+        raise core.HarnessError("model class for all builtin megacomplexes cannot be created")
+    t = attrs.fields(M).dataset.type
+    return typing.get_args(t)[1]
+
+
+def walk_live(schema=None):
+    """rows: {key, kind, vals, items, params, fill_items, fill_params}; a walker that raises gives a row whose kind says so
+       (no theorem about the table closes with such a row)"""
+    if "w" in _WALKER_CACHE:
+        return _WALKER_CACHE["w"]
+    import attrs
+    import importlib
+    schema = schema or walk_schema()
+    rows = []
+    for sp in schema["specs"]:
+        for kind in ("full", "empty", "none"):
+            row = {"key": sp["key"], "kind": kind, "vals": [], "items": [], "params": [], "fill_items": [], "fill_params": []}
+            try:
+                gitem = importlib.import_module("glotaran.model.item")
+                cls = _spec_class(schema, sp)
+
+                def probe():
+                    o = object.__new__(cls)
+                    for f in attrs.fields(cls):
+                        object.__setattr__(o, f.name, None)
+                    for a in sp["attrs"]:
+                        if a["kind"] in ("item", "param", "unsupported"):
+                            object.__setattr__(o, a["name"], copy.deepcopy(_probe_value(a, kind)))
+                    return o
+
+                row["vals"] = [(a["name"], _probe_value(a, kind)) for a in sp["attrs"] if a["kind"] in ("item", "param", "unsupported")]
+                row["items"] = [(n, l) for n, l in gitem.iterate_model_item_names_and_labels(probe())]
+                row["params"] = [(n, l) for n, l in gitem.iterate_parameter_names_and_labels(probe())]
+                seen = []
+
+                def rec(name, label):
+                    seen.append((name, label))
+                    return label
+
+                gitem.fill_item_attributes(probe(), gitem.model_attributes(cls), rec)
+                row["fill_items"], seen = seen, []
+                gitem.fill_item_attributes(probe(), gitem.parameter_attributes(cls), rec)
+                row["fill_params"] = seen
+                for k in ("items", "params", "fill_items", "fill_params"):
+                    if not all(isinstance(n, str) and isinstance(l, str) for n, l in row[k]):
+                        raise TypeError(f"walker {k} yielded a non-string")
+            except Exception as e:  # noqa: BLE001 — never crash, never a silent default
+                row["kind"] = f"untranslatable {kind}: live walker raised {type(e).__name__}"
+                for k in ("items", "params", "fill_items", "fill_params"):
+                    row[k] = []
+            rows.append(row)
+    _WALKER_CACHE["w"] = rows
+    return rows
+
+
+def _val_lean(v):
+    if v is None:
+        return ".none"
+    if isinstance(v, str):
+        return f"(.scalar {_lstr(v)})"
+    if isinstance(v, list):
+        return "(.list [" + ", ".join(_lstr(x) for x in v) + "])"
+    return "(.dict [" + ", ".join(f"({_lstr(k)}, {_lstr(x)})" for k, x in v.items()) + "])"
+
+
+def render_walker_lean(rows) -> str:
+    def pairs(ps):
+        return "[" + ", ".join(f"({_lstr(n)}, {_lstr(l)})" for n, l in ps) + "]"
+
+    out = [
+        "/-",
+        "GENERATED by harness/props/c20.py (generate) by running the LIVE walkers of VERIF_REPO on probe instances — do not edit.",
+        "For every item class of the Schema and every probe kind (every reference attribute full / empty / None): the values",
+        "fed to the instance and the (name, label) pairs visited by iterate_model_item_names_and_labels,",
+        "iterate_parameter_names_and_labels and fill_item_attributes (model attributes, parameter attributes).",
+        "-/",
+        "import GlotaranModel.C20",
+        "namespace Glotaran.C20.Generated",
+        "",
+        "def walker : List WalkRow := [",
+    ]
+    txt = []
+    for r in rows:
+        vals = "[" + ", ".join(f"({_lstr(n)}, {_val_lean(v)})" for n, v in r["vals"]) + "]"
+        txt.append(f"  ⟨{_lstr(r['key'])}, {_lstr(_ascii(r['kind']))},\n    {vals},\n    {pairs(r['items'])},\n    {pairs(r['params'])},\n"
+                   f"    {pairs(r['fill_items'])},\n    {pairs(r['fill_params'])}⟩")
+    out.append(",\n".join(txt))
+    out += ["]", "", "end Glotaran.C20.Generated", ""]
+    return "\n".join(out)
+
+
+def generate_walker(schema):
+    rows = walk_live(schema)
+    text = render_walker_lean(rows)
+    _write_if_changed(GEN_WALKER, text)
+    files = [str(core.REPO / "glotaran/model/item.py"), str(core.REPO / "glotaran/model/model.py")]
+    return [{"table": "Walker (lean/GlotaranModel/Generated/C20Walker.lean)", "source": _rel(files), "source_sha1": _sha_files(files),
+             "sha1": hashlib.sha1(text.encode()).hexdigest(), "rows": len(rows),
+             "positions_visited": sum(len(r["items"]) + len(r["params"]) for r in rows),
+             "walkers_that_raised": [r["kind"] for r in rows if r["kind"].startswith("untranslatable")]}]
+
+
 def generate(ck):
     schema = walk_schema()
     text = render_lean(schema)
@@ -374,7 +635,20 @@ def generate(ck):
     for f in files:
         if f != "?" and Path(f).exists():
             h.update(Path(f).read_bytes())
-    return [{"table": "Schema (lean/GlotaranModel/Generated/C20.lean)",
+    vs = walk_validators(schema)
+    vtext = render_validators_lean(vs)
+    _write_if_changed(GEN_VALIDATORS, vtext)
+    vfiles = sorted({inspect.getsourcefile(f) or "?" for f in vs["funcs"].values()})
+    kinds = {}
+    for pr in vs["preds"].values():
+        kinds[pr[0]] = kinds.get(pr[0], 0) + 1
+    extra = [{"table": "Validators (lean/GlotaranModel/Generated/C20Validators.lean)", "source": _rel(vfiles),
+              "source_sha1": _sha_files(vfiles), "sha1": hashlib.sha1(vtext.encode()).hexdigest(),
+              "validator_functions": len(vs["funcs"]), "validator_uses": len(vs["uses"]), "predicates_by_kind": kinds,
+              "opaque_or_untranslatable": sorted(n for n, pr in vs["preds"].items() if pr[0] in ("opaque", "untranslatable")),
+              "other_hooks_found": [list(h) for h in vs["hooks"]]}]
+    extra += generate_walker(schema)
+    return extra + [{"table": "Schema (lean/GlotaranModel/Generated/C20.lean)",
              "source": [str(Path(f).resolve().relative_to(core.REPO)) if f.startswith(str(core.REPO)) else f for f in files],
              "source_sha1": h.hexdigest(), "sha1": hashlib.sha1(text.encode()).hexdigest(),
              "specs": len(schema["specs"]), "reference_positions": sum(1 for s in schema["specs"] for a in s["attrs"]
@@ -386,9 +660,7 @@ def schema_protocol_dump(schema) -> str:
     def attr(a):
         k = f"item:{enc(a['coll'])}" if a["kind"] == "item" else ("param" if a["kind"] == "param" else "plain")
         v = a["validator"]
-        vs = {"none": "none", "megacomplexes": "megacomplexes"}.get(v[0])
-        if vs is None:
-            vs = f"samelength:{strs(v[1])}" if v[0] == "samelength" else f"custom:{enc(v[1])}"
+        vs = "none" if v[0] == "none" else f"named:{enc(v[1])}"
         return f"[{enc(a['name'])},{a['struct']},{core.bool_(a['optional'])},{k},{vs}]"
 
     return core.lst(
@@ -466,6 +738,7 @@ def scenarios():
             "dataset": {"d1": {"megacomplex": ["mc_par", "mc_osc", "mc_coh"], "irf": "irf_s",
                                "megacomplex_scale": ["sc.1", "sc.2", "sc.3"]},
                         "d2": {"megacomplex": ["mc_osc"]}},
+            "weights": [{"datasets": ["d1", "d2"], "model_interval": (0.0, 1.0), "value": 0.5}],
         },
         "params": {"r": [["1", 0.6], ["2", 0.15]], "osc": [["f1", 3.0], ["f2", 7.0], ["r1", 0.1], ["r2", 0.2]],
                    "coh": [["w", 0.25]],
@@ -488,7 +761,9 @@ def scenarios():
         "spec": {
             "megacomplex": {"mc_par": {"type": "decay-parallel", "compartments": ["s1", "s2", "s3", "s4"],
                                        "rates": ["r.1", "r.2", "r.3", "r.4"]},
-                            "mc_spec": {"type": "spectral", "shape": {"s1": "sh_g", "s2": "sh_sk", "s3": "sh_one", "s4": "sh_zero"}}},
+                            "mc_spec": {"type": "spectral", "shape": {"s1": "sh_g", "s2": "sh_sk", "s3": "sh_one", "s4": "sh_zero"}},
+                            "mc_gbase": {"type": "baseline", "dimension": "spectral"},
+                            "mc_gguide": {"type": "clp-guide", "dimension": "spectral", "target": "s1"}},
             "shape": {"sh_g": {"type": "gaussian", "amplitude": "sh.a1", "location": "sh.l1", "width": "sh.w1"},
                       "sh_sk": {"type": "skewed-gaussian", "location": "sh.l2", "width": "sh.w2", "skewness": "sh.k2"},
                       "sh_one": {"type": "one"}, "sh_zero": {"type": "zero"}},
@@ -553,11 +828,14 @@ def val_tree(v):
 
 def needed_attrs(spec):
     need = [a["name"] for a in spec["attrs"] if a["kind"] in ("item", "param")]
+    preds = walk_validators()["preds"]
     for a in spec["attrs"]:
-        if a["validator"][0] == "samelength":
-            need += [x for x in a["validator"][1] if x not in need]
-        if a["validator"][0] == "megacomplexes" and a["name"] not in need:
-            need.append(a["name"])
+        if a["validator"][0] == "named":
+            if a["name"] not in need:
+                need.append(a["name"])
+            pr = preds[a["validator"][1]]
+            if pr[0] == "lengthsequal":
+                need += [x for x in pr[1] if x not in need]
     return need
 
 
@@ -678,7 +956,9 @@ def positions(schema, spec):
             if sp is None:
                 raise core.HarnessError(f"scenario item {coll}:{ident} has class key {key!r} unknown to the schema")
             for a in sp["attrs"]:
-                if a["kind"] not in ("item", "param") or a["name"] not in d or d[a["name"]] is None:
+                if (key, a["name"]) in ORACLE_LABEL_POSITIONS and a["name"] in d and d[a["name"]] is not None:
+                    a = dict(a, kind="label", coll=ORACLE_LABEL_POSITIONS[(key, a["name"])])
+                if a["kind"] not in ("item", "param", "label") or a["name"] not in d or d[a["name"]] is None:
                     continue
                 v = d[a["name"]]
                 if a["struct"] == "scalar":
@@ -689,6 +969,12 @@ def positions(schema, spec):
                     out += [(coll, ident, a, k, x) for k, x in v.items()]
     return out
 
+
+# labels the code stores as plain strings (`str` / `list[str]` for the type system) that name model items: the property's
+# "every label that is referenced but not defined" covers them (oracle-side knowledge, independent of the translator);
+# they are looked up as they are (no `if not value` skip)
+ORACLE_LABEL_POSITIONS = {("dataset/", "group"): "dataset_groups", ("weights/", "datasets"): "dataset"}
+IMPLICIT_LABELS = {"dataset_groups": {"default"}}   # `_load_dataset_groups` always defines the default group
 
 RELABEL_SCHEMA = {"by_key": {}}   # set by systematic_mutations (the schema is needed to find the references to re-point)
 
@@ -715,6 +1001,10 @@ def apply_mutation(spec, params_removed, mut):
     elif kind == "droplast":
         _, coll, ident, attr = mut
         spec[coll][ident][attr] = list(spec[coll][ident][attr])[:-1]
+    elif kind == "duplast":
+        _, coll, ident, attr = mut
+        v = list(spec[coll][ident][attr])
+        spec[coll][ident][attr] = v + [v[-1]]
     elif kind == "set":
         _, coll, ident, attr, value = mut
         spec[coll][ident][attr] = value
@@ -763,6 +1053,10 @@ def expected_issues(schema, spec, params_present):
        returns (must_report: list of canonical issues as multiset, must_be_empty: bool)"""
     must = []
     for coll, ident, a, sub, label in positions(schema, spec):
+        if a["kind"] == "label":
+            if label not in spec.get(a["coll"], {}) and label not in IMPLICIT_LABELS.get(a["coll"], ()):
+                must.append(f"[item,{enc(a['coll'])},{enc(label)}]")
+            continue
         if a["struct"] == "scalar" and label == "":
             continue
         if a["kind"] == "item":
@@ -782,17 +1076,23 @@ def expected_issues(schema, spec, params_present):
                     must.append(f"[exclusive,{enc(x)},{enc(k)}]")
                 if sp["unique"] and keys.count(k) > 1:
                     must.append(f"[unique,{enc(x)},{enc(k)}]")
-    # length validators (damped-oscillation / pfid)
+    # length rule of the oscillation-like megacomplexes (stated here from the documentation of the classes, NOT taken
+    # from the translated validator table: the oracle must not depend on the translator)
     for coll, items in spec.items():
         seq = items.items() if isinstance(items, dict) else enumerate(items)
         for ident, d in seq:
-            sp = schema["by_key"][f"{coll}/{d['type']}" if "type" in d else f"{coll}/"]
-            for a in sp["attrs"]:
-                if a["validator"][0] == "samelength":
-                    lens = [len(d[x]) for x in a["validator"][1]]
-                    if len(set(lens)) > 1:
-                        must.append(f"[lengths,{enc(str(ident))},{core.lst(map(str, lens))}]")
+            names = ORACLE_LENGTH_RULES.get(f"{coll}/{d['type']}" if "type" in d else f"{coll}/")
+            if names:
+                lens = [len(d[x]) for x in names]
+                if len(set(lens)) > 1:
+                    must.append(f"[lengths,{enc(str(ident))},{core.lst(map(str, lens))}]")
     return sorted(must)
+
+
+ORACLE_LENGTH_RULES = {
+    "megacomplex/damped-oscillation": ["labels", "frequencies", "rates"],
+    "megacomplex/pfid": ["labels", "frequencies", "rates"],
+}
 
 
 def all_param_labels(pdict):
@@ -803,6 +1103,7 @@ def all_param_labels(pdict):
 def systematic_mutations(schema, sc):
     spec = sc["spec"]
     muts = []
+    preds = walk_validators(schema)["preds"]
     pos = positions(schema, spec)
     for coll, ident, a, sub, label in pos:
         muts.append([("misspell", coll, ident, a["name"], sub, label + "_x")])
@@ -815,6 +1116,18 @@ def systematic_mutations(schema, sc):
             if "." in label:
                 near.append(label.rsplit(".", 1)[0])
             near.append(label + ".x")
+        if a["kind"] in ("item", "label"):
+            # a label that IS defined, but in another collection (labels are unique per collection only)
+            others = [c for c in ("dataset", "megacomplex") + tuple(spec) if c != a["coll"] and isinstance(spec.get(c), dict)]
+            seen_c = []
+            for c in others:
+                if c in seen_c:
+                    continue
+                seen_c.append(c)
+                cand = next((x for x in spec[c] if x not in spec.get(a["coll"], {})
+                             and x not in IMPLICIT_LABELS.get(a["coll"], ())), None)
+                if cand is not None and len(seen_c) <= 2:
+                    near.append(cand)
         for nl in near:
             if nl != label:
                 muts.append([("misspell", coll, ident, a["name"], sub, nl)])
@@ -825,7 +1138,7 @@ def systematic_mutations(schema, sc):
         elif sub in (0,) or (a["struct"] == "dict" and sub == next(iter(spec[coll][ident][a["name"]]))):
             muts.append([("set", coll, ident, a["name"], [] if a["struct"] == "list" else {})])
     for coll, items in spec.items():
-        if isinstance(items, dict) and coll not in ("dataset", "dataset_groups"):
+        if isinstance(items, dict):
             for label in items:
                 muts.append([("undefine", coll, label)])
     # the same label for items of different collections (round-2 seeded change C20-4: a fill memo keyed by label only)
@@ -845,15 +1158,51 @@ def systematic_mutations(schema, sc):
                 continue
             for mlabel in spec["megacomplex"]:
                 muts.append([("append", dlabel, attr, mlabel)])
+                if schema["by_key"][f"megacomplex/{spec['megacomplex'][mlabel]['type']}"]["unique"]:
+                    muts.append([("append", dlabel, attr, mlabel), ("append", dlabel, attr, mlabel)])
     for coll, items in spec.items():
         seq = items.items() if isinstance(items, dict) else enumerate(items)
         for ident, d in seq:
             sp = schema["by_key"][f"{coll}/{d['type']}" if "type" in d else f"{coll}/"]
             for a in sp["attrs"]:
-                if a["validator"][0] == "samelength":
-                    for x in a["validator"][1]:
+                pr = preds.get(a["validator"][1]) if a["validator"][0] == "named" else None
+                if pr and pr[0] == "lengthsequal":
+                    # every way the table allows: each measured list shorter, each longer, and each pair changed alike
+                    for x in pr[1]:
                         muts.append([("droplast", coll, ident, x)])
+                        muts.append([("duplast", coll, ident, x)])
+                    for i, x in enumerate(pr[1]):
+                        for y in pr[1][i + 1:]:
+                            muts.append([("droplast", coll, ident, x), ("droplast", coll, ident, y)])
+                    muts.append([("droplast", coll, ident, x) for x in pr[1]])
     return muts
+
+
+def dangling_singles(schema, sc):
+    """single mutations that each create (at least) one dangling reference, with the item / definition they belong to"""
+    spec = sc["spec"]
+    out = []
+    for coll, ident, a, sub, label in positions(schema, spec):
+        out.append((("misspell", coll, ident, a["name"], sub, label + "_x"), ("item", coll, ident)))
+    for coll, items in spec.items():
+        if isinstance(items, dict):
+            for label in items:
+                out.append((("undefine", coll, label), ("item", coll, label)))
+    for p in all_param_labels(sc["params"]):
+        out.append((("rmparam", p), ("param", p)))
+    return out
+
+
+def pair_mutations(schema, sc):
+    """all unordered pairs of dangling-reference mutations that sit in different items (no masking: both must be reported)"""
+    singles = dangling_singles(schema, sc)
+    out = []
+    for i, (m1, o1) in enumerate(singles):
+        for m2, o2 in singles[i + 1:]:
+            if o1 != o2:
+                # a misspelling inside an item goes first so that removing a definition afterwards cannot hide it
+                out.append([m1, m2] if m1[0] != "undefine" else [m2, m1])
+    return out
 
 
 def random_mutations(ck, schema, sc, n):
@@ -945,6 +1294,17 @@ def run_case(ck, schema, scen_name, sc, muts, evaluate=False):
         except Exception as e:  # noqa: BLE001
             if not isinstance(e, AssertionError):
                 ck.violation("internal-error-validate-" + type(e).__name__, f"validate()/valid() raised {e!r}", case)
+        # Scheme.validate() / Scheme.valid() are the same statement about (model, parameters)
+        if with_ps:
+            try:
+                from glotaran.project import Scheme
+                scheme = Scheme(model=model, parameters=ps, data=sc["data"])
+                sv, st = scheme.valid(), str(scheme.validate())
+                if sv != (not got) or st != str(model.validate(ps)):
+                    ck.violation("scheme-validate-differs", f"Scheme.valid()={sv}, Scheme.validate()={st!r}, "
+                                 f"Model.get_issues(parameters)={got}", case)
+            except Exception as e:  # noqa: BLE001
+                ck.violation("internal-error-scheme-validate-" + type(e).__name__, f"Scheme.validate()/valid() raised {e!r}", case)
 
     # ---- parameter labels / generated parameters
     lines.append("params")
@@ -1161,23 +1521,50 @@ def check_driver_schema(ck, schema):
     if got != want:
         raise core.HarnessError("the Schema compiled into the Lean driver is not the one regenerated in this run "
                                 "(lake build did not pick up lean/GlotaranModel/Generated/C20.lean?)")
+    got = core.lean_driver(PROP, ["validators"])[0]
+    if got != validators_protocol_dump(walk_validators(schema)):
+        raise core.HarnessError("the validator table compiled into the Lean driver is not the one regenerated in this run "
+                                "(lake build did not pick up lean/GlotaranModel/Generated/C20Validators.lean?)")
 
 
 def untyped_reference_probe(ck, schema, scs):
-    """DatasetModel.group / Weight.datasets are plain `str` for the type system: observed, not judged"""
+    """scheme-level positions the property does NOT cover (clp labels are produced by megacomplexes at evaluation, they are
+       not defined in the model; `scheme.data` keys are data, not a model or a parameter set): observed and recorded, never
+       judged.  (`DatasetModel.group` / `Weight.datasets` ARE covered — labels of model items stored as plain strings — and
+       are part of the correspondence and the oracle since the `fix:` that validates them.)"""
+    from glotaran.optimization.optimize import optimize
+    from glotaran.project import Scheme
+
     sc = scs["decay"]
-    spec = copy.deepcopy(sc["spec"])
-    spec["dataset"]["d1"]["group"] = "nogroup"
-    spec["weights"][0]["datasets"] = ["nodataset"]
-    try:
-        m = build_model(spec, scenario_types(spec))
-        r = real_issues(m, build_params(sc["params"]))
-        ck.extra["untyped_label_positions_observed"] = {
-            "input": "dataset.group='nogroup' (undefined), weights[0].datasets=['nodataset'] (undefined)",
-            "get_issues": r[1] if r[0] == "ok" else f"raised {r[1]}",
-            "note": "these attributes are annotated `str` / `list[str]`, not ModelItemType: outside the schema and the theorems"}
-    except Exception as e:  # noqa: BLE001
-        ck.extra["untyped_label_positions_observed"] = repr(e)
+    out = {}
+    for what in ("clp-labels-undefined", "data-missing"):
+        spec = copy.deepcopy(sc["spec"])
+        data = dict(sc["data"])
+        if what == "clp-labels-undefined":
+            spec["clp_constraints"][0]["target"] = "nope1"
+            spec["clp_relations"][0]["source"] = "nope2"
+            spec["clp_penalties"][0]["target"] = "nope3"
+        else:
+            data.pop("d1")
+        try:
+            m = build_model(spec, scenario_types(spec))
+            ps = build_params(sc["params"])
+            r = real_issues(m, ps)
+            obs = {"get_issues": r[1] if r[0] == "ok" else f"raised {r[1]}"}
+            try:
+                with warnings.catch_warnings():
+                    warnings.simplefilter("ignore")
+                    optimize(Scheme(model=m, parameters=ps, data=data, maximum_number_function_evaluations=1),
+                             verbose=False, raise_exception=True)
+                obs["one_evaluation"] = "ok (the undefined labels are silently ignored)"
+            except Exception as e:  # noqa: BLE001
+                obs["one_evaluation"] = f"raised {type(e).__name__}"
+            out[what] = obs
+        except Exception as e:  # noqa: BLE001
+            out[what] = repr(e)
+    out["note"] = ("not covered by C20: clp labels (constraint / relation / penalty target and source) are not labels defined in a "
+                   "model, scheme.data keys are not part of a model or parameter set, clp_link_* are options")
+    ck.extra["scheme_level_positions_observed"] = out
 
 
 def run(ck):
@@ -1233,6 +1620,17 @@ def run(ck):
     n = ck.n(40, 600)
     for name, sc in scs.items():
         compare(ck, schema, [(name, sc, m, False) for m in random_mutations(ck, schema, sc, n)], "random")
+    # pairs of simultaneous dangling references in different items: both must be reported (no masking);
+    # thorough: all pairs, quick: a seeded sample
+    n_pairs = 0
+    for name, sc in scs.items():
+        pairs = pair_mutations(schema, sc)
+        if ck.quick:
+            pairs = ck.rng.sample(pairs, min(30, len(pairs)))
+        n_pairs += len(pairs)
+        for i in range(0, len(pairs), 400):
+            compare(ck, schema, [(name, sc, m, False) for m in pairs[i:i + 400]], "pairs")
+    ck.extra["pairs_of_dangling_references"] = {"cases": n_pairs, "all_pairs": not ck.quick}
     untyped_reference_probe(ck, schema, scs)
 
 
